@@ -30,7 +30,8 @@ TECHNIQUE = 'stateless bounded-exhaustive exploration of inputs x short-read sch
 
 NOWHERE = '/nonexistent-directory-c19/name.json'      # a name only the custom open_obj can resolve
 VALUES = [0, -1, 2 ** 63 - 1, -2 ** 63, 1.5, 1e-7, True, None, '', 'a', 'é\U0001F600', 'line\nbreak', 'q"uote\\', [1, [2]], {'k': {}},
-          'x [NaN,Infinity] y :NaN, [-Infinity]', '\ufeffbom\ufeff']
+          'x [NaN,Infinity] y :NaN, [-Infinity]', '\ufeffbom\ufeff',
+          'u\u2028v\u2029w\x85x\x0by\x0cz\x1c\x1d\x1e\r']      # characters str.splitlines() breaks on but that are not line ends of JSON lines
 COMP = [None, 'gzip', 'zstd']
 
 
